@@ -149,6 +149,20 @@ def families(tier):
     for n in (5, 6) if thorough else (5,):
         for vals in itertools.product(V5, repeat=n):
             yield 'single', [(i, v, '') for i, v in enumerate(vals)], sk
+    # long lists with ties (stability must not depend on the list being short: library sorts switch algorithm above a size)
+    LONGV = ['b', '2', '10']
+    for n in ((17, 33) if not thorough else (16, 17, 18, 33, 40, 65)):
+        for period in range(1, 5 if not thorough else 6):
+            for pat in itertools.product(LONGV, repeat=period):
+                if period > 1 and len(set(pat)) == 1:
+                    continue
+                vals = [pat[i % period] for i in range(n)]
+                yield 'long', [(i, v, '') for i, v in enumerate(vals)], sk
+        # one element out of place in an otherwise constant list, at every position
+        for pos_ in range(n):
+            vals = ['2'] * n
+            vals[pos_] = '10'
+            yield 'long', [(i, v, '') for i, v in enumerate(vals)], sk
     tk = two_key_speclists()
     P = [(k, j) for k in ('a', 'b', '1') for j in ('1', '2', '10')]
     for n in range(2, 4 if not thorough else 5):
@@ -248,7 +262,7 @@ def main():
     cov = {
         'evaluations': counts['evaluations'],
         'distinct_nontrivial': counts['nontrivial'],
-        'rule': 'Every node list of size 0..4 over 8 (quick) / 11 (thorough) key values (incl. empty string, NaN-valued, -0, the numeric-cache '
+        'rule': 'Long lists with ties: every periodic list (period 1..4 / 1..5 over 3 values) and every list with one displaced element, of length 17 and 33 (thorough 16..65) x 16 single-key lists. Every node list of size 0..4 over 8 (quick) / 11 (thorough) key values (incl. empty string, NaN-valued, -0, the numeric-cache '
                 'sentinel 135792468) and size 5(,6) over 4(5) values x 16 single-key lists (select x data-type x order); every list of 2..3(4) '
                 '(k,j) pairs over 9 pairs x 16 two-key lists; every list of 2..3(4) values over {a,B,b,A,z,a-umlaut} x lang {-,en,sv} x case-order x '
                 'order and two-key lists with different languages; in xsl:for-each and xsl:apply-templates. Oracle: a stable sort with the '
